@@ -5,7 +5,7 @@ _a = dict(file="C10.c", repo_srcs=_srcs, remove_bodies=ERR, models=["log_err.c",
           functions=["zck_get_missing_range", "range_add", "range_insert_new", "range_merge_combined", "range_remove",
                      "zck_get_range_count", "zck_range_free", "index_new_chunk", "finish_chunk", "index_clean", "zck_get_header_length"])
 _c = dict(file="C10.c", repo_srcs=_srcs, remove_bodies=dict(ERR, **{"src/lib/zck.c": ["zmalloc", "zrealloc"]}),
-          models=["log_err.c", "digeststr.c", "fmt.c", "padalloc.c"],
+          models=["log_err.c", "digeststr.c", "fmt.c", "inplace_alloc.c"],
           functions=["zck_get_range_char", "zrealloc", "zmalloc"])
 SPEC = {
     "explanation": "zck_get_missing_range on a directly constructed open context with n<=N chunks (symbolic stored sizes, validity vector, header "
@@ -16,7 +16,7 @@ SPEC = {
                 "is snprintf's (libc, trusted)", "BUF_SIZE is scaled from 32768 to 16 (the function is parametric in it)"],
     "assumptions": ["target context is in the state zck_read_header leaves (chunk starts are the running sum of stored sizes, C13)",
                     "chunk validity is 0 (missing) or 1 (valid); stored sizes 1..2^20 in h10a, dictionary entry of size 0 in h10b",
-                    "get_digest_string (log text only) replaced by env/digeststr.c", "h10c: zmalloc/zrealloc replaced by env/padalloc.c (realloc returns the same pointer; logical size tracked and checked by the snprintf model and the read-back)"],
+                    "get_digest_string (log text only) replaced by env/digeststr.c", "h10c: zmalloc/zrealloc replaced by env/inplace_alloc.c (realloc returns the same pointer; logical size tracked and checked by the snprintf model and the read-back)"],
     "harnesses": [
         dict(_a, name="h10a", function="h10a", what="missing-range computation vs set obligations",
              quick=dict(defines=["-DNCH=3"], unwind=6, unwindset=["fill_nondet.0:17", "memcmp.0:17"]), thorough=dict(defines=["-DNCH=5"], unwind=8, unwindset=["fill_nondet.0:17", "memcmp.0:17"], timeout=3000, mem_gb=16),
